@@ -46,3 +46,6 @@ for i in range(ROUNDS):
             break
 
 print("hung callers:", hung, "in", i + 1, "rounds")
+import os  # noqa: E402
+
+os._exit(1 if hung else 0)  # (exit 1 = defect observed; the hung caller threads cannot be joined)
